@@ -79,6 +79,8 @@ def collision_kind(case, basenames):
                 kinds.add('case-only')
             elif sanitize(a) == sanitize(b):
                 kinds.add('sanitised-equal')
+    if 'stream-name' in kinds:
+        return 'stream-name'      # dominates: the file is called like a test
     return '+'.join(sorted(kinds)) or '-'
 
 
